@@ -258,7 +258,7 @@ func TXTHeapSpaceValid(txtAPI hwapi.LowLevelHardwareInterfaces, p *PreSet) (bool
 		return false, fmt.Errorf("HeapBase > 4Gib"), nil
 	}
 
-	if uint64(regs.HeapBase+regs.HeapSize) >= FourGiB {
+	if uint64(regs.HeapBase)+uint64(regs.HeapSize) >= FourGiB {
 		return false, fmt.Errorf("HeapBase + HeapSize >= 4Gib"), nil
 	}
 
@@ -276,7 +276,7 @@ func TXTHeapSpaceValid(txtAPI hwapi.LowLevelHardwareInterfaces, p *PreSet) (bool
 	if uint64(regs.SinitBase)&0xfff > 0 {
 		return false, fmt.Errorf("SinitBase must be 4 KiB aligned"), nil
 	}
-	if uint64(regs.SinitBase+regs.SinitSize) >= FourGiB {
+	if uint64(regs.SinitBase)+uint64(regs.SinitSize) >= FourGiB {
 		return false, fmt.Errorf("SinitBase + SinitSize >= 4Gib"), nil
 	}
 
